@@ -224,6 +224,7 @@ func (m *C05Monitor) AfterTx(c *Chain, ctx sdk.Context, tx sdk.Tx, ok bool) {
 	newRec := false
 	evidence := "n/a"
 	var origins []string
+	nOrigins, offPar := 0, false // origins of the new records; does one of their validators have a share price other than 1?
 	for k := range esc {
 		if !m.escrow[k] {
 			v, err := c.App.ReporterKeeper.DisputedDelegationAmounts.Get(ctx, []byte(k))
@@ -238,6 +239,10 @@ func (m *C05Monitor) AfterTx(c *Chain, ctx sdk.Context, tx sdk.Tx, ok bool) {
 				}
 				for _, o := range v.TokenOrigins {
 					origins = append(origins, fmt.Sprintf("%s@%s:%s", sdk.AccAddress(o.DelegatorAddress), sdk.ValAddress(o.ValidatorAddress), o.Amount))
+					nOrigins++
+					if val, err := c.App.StakingKeeper.GetValidator(ctx, sdk.ValAddress(o.ValidatorAddress)); err == nil && !val.DelegatorShares.Equal(math.LegacyNewDecFromInt(val.Tokens)) {
+						offPar = true
+					}
 				}
 				recTotal += a2i(v.Total)
 				for _, o := range v.TokenOrigins {
@@ -281,7 +286,13 @@ func (m *C05Monitor) AfterTx(c *Chain, ctx sdk.Context, tx sdk.Tx, ok bool) {
 			if newRec {
 				avail = m.backersStillHold(c, ctx, esc, recTotal-fromStake)
 			}
-			c.Violate("C05", "c05", "escrow-record-vs-moved:evidence="+evidence+":stake-still-available="+avail, map[string]interface{}{"recorded": recTotal, "left_pools": fromStake, "msg": name, "origins": origins})
+			// discriminating fact: stake taken from a delegation to a slashed validator (shares are not worth one token each)
+			// comes out truncated by up to one unit per origin while the full amount is recorded (known finding)
+			class := ""
+			if d := recTotal - fromStake; newRec && offPar && d > 0 && d <= int64(nOrigins) {
+				class = ":within-share-price-truncation"
+			}
+			c.Violate("C05", "c05", "escrow-record-vs-moved:evidence="+evidence+":stake-still-available="+avail+class, map[string]interface{}{"recorded": recTotal, "left_pools": fromStake, "msg": name, "origins": origins})
 		}
 	}
 	m.prev = s
